@@ -1,6 +1,7 @@
 import TinsModel.Checksum.Lemmas
 import TinsModel.Checksum.CrcLemmas
 import TinsModel.Checksum.SerLemmas
+import TinsModel.Wire.Derived.Examples
 /-
   Property C05 — fields libtins derives are correct on the wire.  Theorems only; helper lemmas live in
   TinsModel/Checksum/Lemmas*.lean.
@@ -764,5 +765,561 @@ def length_fields_outside_known_findings : Prop :=
 example : rfc4884Unpadded kf1Witness = true := by decide
 example : accepted [.eth [1,2,3,4,5,6] [7,8,9,10,11,12] 0, .ip 0 1 2 0 64 0 [10, 0, 0, 1] [10, 0, 0, 2] [(1, []), (7, [1, 2, 3])],
     .udp 53 5353, .raw [0xde, 0xad, 0xbe]] = true := by decide +kernel
+
+end Tins.Props.C05
+
+/-! ## Part 4 — the same statements over the wire models of C01–C04
+
+  Parts 1–3 speak about C05's own serialization model (`Checksum/Serialize.lean`).  The theorems below state the same
+  properties **directly about the code-shaped wire models** (`Wire/<Family>/`) that C01–C04 are proved over and that the
+  correspondence ties to the C++ line by line — so all five wire properties speak about one model.  Proofs and helper
+  lemmas: `TinsModel/Wire/Derived/*.lean` (`Bridge.lean` relates the checksum helpers of `Wire/Checksum.lean` to
+  `Checksum/Model.lean`, so the RFC 1071 arithmetic of `Checksum/Lemmas.lean` is reused, not re-proved).
+
+  * per layer, on the region `PDU::serialize` hands the writer, in the context (`Ctx`) it reads its parents / inner
+    layers from: `wire_*_checksum_verifies*`, `wire_udp_zero`, `wire_*_no_parent`; length / offset fields `wire_ip4_tot_len`,
+    `wire_ip4_ihl`, `wire_udp_length`, `wire_tcp_data_offset`, `wire_ip6_payload_length`, `wire_ip6_ext_len_octets`,
+    `wire_icmp_rfc4884_length`, `wire_icmp6_rfc4884_length` (outside KF-C05-1 / KF-C05-2), `wire_pppoe_payload_length`,
+    `wire_eth_min_60`, `wire_dot1q_pad_50`; next-protocol tags `wire_eth_tag`, `wire_dot1q_tag`, `wire_snap_tag`,
+    `wire_sll_tag`, `wire_ip4_protocol`, `wire_ip6_next_header_chain` + `wire_ip6_last_next`, `wire_loopback_family`,
+    `wire_mpls_marker`;
+  * whole packets: `layer_in_packet` (the slice of `serializeObjs os` that belongs to layer `n` is what that layer's writer
+    produced in the context `Wire.sems` gave it), hence `packet_ip4`, `packet_ip6`, `packet_ip_udp`, `packet_ip_tcp`,
+    `packet_ip_icmp`, `packet_ip6_udp`, `packet_ip6_tcp`, `packet_ip6_icmp6`, `packet_eth`: the statements hold inside the
+    final packet bytes of any stack satisfying the class invariants (`registryPreds`: every parsed packet without PPI/PKTAP,
+    every API-built stack).  Non-vacuity on concrete packets: `Wire/Derived/Examples.lean`.
+-/
+namespace Tins.Props.C05
+
+section WireUdp
+open Tins Tins.Wire Tins.Wire.Transport Tins.Wire.Derived
+
+/-- **UDP over IPv4, in situ** (RFC 768).  Directly inside an `IP` whose address getters print `s` / `d`, on the region
+    `PDU::serialize` hands out (header + inner chain, at most 65535 bytes), `write_serialization` succeeds, keeps the
+    payload, and the RFC 1071 sum over the RFC pseudo header (source, destination, zero, 17, UDP length) followed by the
+    bytes it leaves in the region is 0xffff. -/
+theorem wire_udp_checksum_verifies_ip4 (cx : Ctx) (u : Udp) (region s d : Bytes) (hp : ParentIp4 cx s d)
+    (hs : s.length = 4) (hd : d.length = 4) (hreg : region.length = 8 + cx.innerSize) (h16 : region.length ≤ 65535) :
+    ∃ out, u.write cx region = .ok out ∧ out.length = region.length ∧ out.drop 8 = region.drop 8 ∧
+      Ck.Spec.verifies (Ck.Spec.pseudo4 s d 17 out.length ++ out) = true :=
+  Tins.Wire.Derived.wire_udp_checksum_verifies_ip4 cx u region s d hp hs hd hreg h16
+
+/-- **UDP over IPv6, in situ** (RFC 8200 §8.1: 32-bit upper-layer length, three zero bytes, next header 17). -/
+theorem wire_udp_checksum_verifies_ip6 (cx : Ctx) (u : Udp) (region s d : Bytes) (hp : ParentIp6 cx s d)
+    (hs : s.length = 16) (hd : d.length = 16) (hreg : region.length = 8 + cx.innerSize) (h16 : region.length ≤ 65535) :
+    ∃ out, u.write cx region = .ok out ∧ out.length = region.length ∧ out.drop 8 = region.drop 8 ∧
+      Ck.Spec.verifies (Ck.Spec.pseudo6 s d 17 out.length ++ out) = true :=
+  Tins.Wire.Derived.wire_udp_checksum_verifies_ip6 cx u region s d hp hs hd hreg h16
+
+/-- **UDP: a computed 0 is transmitted as 0xffff.**  Under an IP or IPv6 parent (addresses of any length the getters
+    print) the two checksum bytes `write_serialization` leaves in the region are never both zero — "no checksum" in
+    RFC 768 — whatever the datagram, whatever its length. -/
+theorem wire_udp_zero (cx : Ctx) (u : Udp) (region s d : Bytes) (hp : ParentIp4 cx s d ∨ ParentIp6 cx s d)
+    (hr : 8 ≤ region.length) (out : Bytes) (hw : u.write cx region = .ok out) :
+    ¬ (out[6]? = some 0 ∧ out[7]? = some 0) :=
+  Tins.Wire.Derived.wire_udp_zero cx u region s d hp hr out hw
+
+/-- **without an IP / IPv6 parent no checksum is written**: the checksum bytes stay zero, the rest of the header is the
+    same (`tins_cast<const IP*>(parent_pdu())` and `tins_cast<const IPv6*>` both fail) -/
+theorem wire_udp_no_parent (cx : Ctx) (u : Udp) (region : Bytes) (hp : NoIpParent cx) (hr : 8 ≤ region.length) :
+    u.write cx region = .ok (udpZeroed cx u region) ∧
+      (udpZeroed cx u region)[6]? = some 0 ∧ (udpZeroed cx u region)[7]? = some 0 :=
+  Tins.Wire.Derived.wire_udp_no_parent cx u region hp hr
+
+/-- **UDP length field**: bytes 4..5 of what `write_serialization` leaves in its region are the big-endian length of the
+    datagram (header + inner chain), in every context, whenever that fits 16 bits -/
+theorem wire_udp_length (cx : Ctx) (u : Udp) (region : Bytes) (hreg : region.length = 8 + cx.innerSize)
+    (h16 : region.length ≤ 65535) :
+    ∃ out, u.write cx region = .ok out ∧ Cursor.beNat ((out.drop 4).take 2) = out.length :=
+  Tins.Wire.Derived.wire_udp_length cx u region hreg h16
+
+end WireUdp
+
+section WireIp4
+open Tins Tins.Wire Tins.Wire.Ip Tins.Wire.Derived
+
+/-- **IPv4 header checksum, in situ** (RFC 791).  For every object satisfying the class invariant — any option list
+    reachable by parsing or through the API — whose header fits the 4-bit length field, in every context and on every
+    region of at least `header_size()` bytes, `write_serialization` succeeds, leaves the payload as it found it, and the
+    RFC 1071 sum over the `header_size()` header bytes it wrote (fixed part, options, padding, checksum) is 0xffff. -/
+theorem wire_ip4_header_checksum_verifies (cx : Ctx) (o : Ip4) (h : o.Inv) (hf : o.Fits) (region : Bytes)
+    (hr : o.hdr ≤ region.length) :
+    ∃ out, o.write cx region = .ok out ∧ out.length = region.length ∧ out.drop o.hdr = region.drop o.hdr ∧
+      Ck.Spec.verifies (out.take o.hdr) = true :=
+  Tins.Wire.Derived.wire_ip4_header_checksum_verifies cx o h hf region hr
+
+/-- **IPv4 total length.**  On the region `PDU::serialize` hands out (header + inner chain), the 16-bit total-length
+    field in the bytes `write_serialization` leaves there equals `header_size()` plus the size of everything inside the
+    IP layer — the number of bytes from the first header byte to the end of the IP payload — whenever that fits the field. -/
+theorem wire_ip4_tot_len (cx : Ctx) (o : Ip4) (h : o.Inv) (hf : o.Fits) (region : Bytes)
+    (hreg : region.length = o.hdr + cx.innerSize) (h16 : o.hdr + cx.innerSize < 65536) :
+    ∃ out, o.write cx region = .ok out ∧ out.length = region.length ∧
+      Cursor.beNat ((out.drop 2).take 2) = o.hdr + cx.innerSize :=
+  Tins.Wire.Derived.wire_ip4_tot_len cx o h hf region hreg h16
+
+/-- **IPv4 header length.**  IHL (low nibble of byte 0) times 4 is `header_size()` = 20 + the options padded to a
+    multiple of four bytes = the offset at which the payload starts (`out.drop o.hdr = region.drop o.hdr`), and the
+    version nibble is kept. -/
+theorem wire_ip4_ihl (cx : Ctx) (o : Ip4) (h : o.Inv) (hf : o.Fits) (region : Bytes) (hr : o.hdr ≤ region.length) :
+    ∃ out, o.write cx region = .ok out ∧ byteAt out 0 % 16 * 4 = o.hdr ∧
+      o.hdr = 20 + Ip4.padOptionsSize (Ip4.calcOptionsSize o.opts) ∧
+      Ip4.padOptionsSize (Ip4.calcOptionsSize o.opts) % 4 = 0 ∧
+      Ip4.calcOptionsSize o.opts ≤ Ip4.padOptionsSize (Ip4.calcOptionsSize o.opts) ∧
+      Ip4.padOptionsSize (Ip4.calcOptionsSize o.opts) < Ip4.calcOptionsSize o.opts + 4 :=
+  Tins.Wire.Derived.wire_ip4_ihl cx o h hf region hr
+
+/-- **IPv4 protocol names the follower.**  The protocol octet (byte 9) in the bytes `write_serialization` leaves is
+    `Ip4.protocolFor`: when the inner layer's class has a protocol number in libtins' table
+    (`pdu_flag_to_ip_type`), that number — and the parser's dispatch table maps it back to a class
+    (`derived_ip_tag_dispatches`); when it has none (e.g. RawPDU) the stored protocol is kept; 0 without inner layer. -/
+theorem wire_ip4_protocol (cx : Ctx) (o : Ip4) (h : o.Inv) (hf : o.Fits) (region : Bytes) (hr : o.hdr ≤ region.length) :
+    ∃ out, o.write cx region = .ok out ∧
+      (∀ i, cx.inners.head? = some i → Tags.ipProtoOfPduType (Tags.pduTypeOf i.cls) ≠ 255 →
+        byteAt out 9 = Tags.ipProtoOfPduType (Tags.pduTypeOf i.cls) ∧
+        (Tags.classOfIpProto (byteAt out 9)).isSome = true) ∧
+      (∀ i, cx.inners.head? = some i → Tags.ipProtoOfPduType (Tags.pduTypeOf i.cls) = 255 → byteAt out 9 = o.protocol) ∧
+      (cx.inners.head? = none → byteAt out 9 = 0) :=
+  Tins.Wire.Derived.wire_ip4_protocol cx o h hf region hr
+
+end WireIp4
+
+section WireTcp
+open Tins Tins.Wire Tins.Wire.Transport Tins.Wire.Derived
+
+/-- **TCP over IPv4, in situ** (RFC 793).  For every option list that fits the 40-byte option area (any kinds, any
+    advertised lengths), directly inside an `IP` whose address getters print `s` / `d`, on the region `PDU::serialize`
+    hands out (header + inner chain, at most 65535 bytes), `write_serialization` succeeds, keeps the payload, and the
+    RFC 1071 sum over the RFC pseudo header (source, destination, zero, 6, TCP length) followed by the whole segment it
+    leaves in the region — header, options, padding, payload — is 0xffff. -/
+theorem wire_tcp_checksum_verifies_ip4 (cx : Ctx) (t : Tcp) (hs : Tcp.optsSum t.opts ≤ 40) (region s d : Bytes)
+    (hp : ParentIp4 cx s d) (hs4 : s.length = 4) (hd4 : d.length = 4) (hreg : region.length = t.hdr + cx.innerSize)
+    (h16 : region.length ≤ 65535) :
+    ∃ out, t.write cx region = .ok out ∧ out.length = region.length ∧ out.drop t.hdr = region.drop t.hdr ∧
+      Ck.Spec.verifies (Ck.Spec.pseudo4 s d 6 out.length ++ out) = true :=
+  Tins.Wire.Derived.wire_tcp_checksum_verifies_ip4 cx t hs region s d hp hs4 hd4 hreg h16
+
+/-- **TCP over IPv6, in situ** (RFC 8200 §8.1 pseudo header: 32-bit upper-layer length, three zero bytes, next header 6). -/
+theorem wire_tcp_checksum_verifies_ip6 (cx : Ctx) (t : Tcp) (hs : Tcp.optsSum t.opts ≤ 40) (region s d : Bytes)
+    (hp : ParentIp6 cx s d) (hs16 : s.length = 16) (hd16 : d.length = 16) (hreg : region.length = t.hdr + cx.innerSize)
+    (h16 : region.length ≤ 65535) :
+    ∃ out, t.write cx region = .ok out ∧ out.length = region.length ∧ out.drop t.hdr = region.drop t.hdr ∧
+      Ck.Spec.verifies (Ck.Spec.pseudo6 s d 6 out.length ++ out) = true :=
+  Tins.Wire.Derived.wire_tcp_checksum_verifies_ip6 cx t hs region s d hp hs16 hd16 hreg h16
+
+/-- **without an IP / IPv6 parent no checksum is written**: the checksum bytes stay zero -/
+theorem wire_tcp_no_parent (cx : Ctx) (t : Tcp) (hs : Tcp.optsSum t.opts ≤ 40) (region : Bytes) (hp : NoIpParent cx)
+    (hr : t.hdr ≤ region.length) :
+    t.write cx region = .ok (tcpZeroed t region) ∧
+      (tcpZeroed t region)[16]? = some 0 ∧ (tcpZeroed t region)[17]? = some 0 :=
+  Tins.Wire.Derived.wire_tcp_no_parent cx t hs region hp hr
+
+/-- **TCP data offset.**  For every object satisfying the class invariant whose options fit the option area, in every
+    context: the high nibble of byte 12 of what `write_serialization` leaves in its region, times 4, is `header_size()` =
+    20 + the option bytes as `write_option` encodes them, rounded up to a multiple of 4 — the offset at which the payload
+    starts (`out.drop t.hdr = region.drop t.hdr`). -/
+theorem wire_tcp_data_offset (cx : Ctx) (t : Tcp) (hi : t.Inv) (hs : Tcp.optsSum t.opts ≤ 40) (region : Bytes)
+    (hr : t.hdr ≤ region.length) :
+    ∃ out, t.write cx region = .ok out ∧ Transport.byteAt out 12 / 16 * 4 = t.hdr ∧
+      t.hdr = 20 + Tcp.padded (Tcp.optsSum t.opts) ∧ (Tcp.optsBytes t.opts).length = Tcp.optsSum t.opts ∧
+      out.drop t.hdr = region.drop t.hdr :=
+  Tins.Wire.Derived.wire_tcp_data_offset cx t hi hs region hr
+
+end WireTcp
+
+section WireIcmp
+open Tins Tins.Wire Tins.Wire.Icmp Tins.Wire.Derived
+
+/-- **ICMP checksum, in situ** (RFC 792).  For every object satisfying the class invariant — every type (timestamp and
+    address-mask bodies included), with or without an RFC 4884 extension structure — on the region `PDU::serialize` hands
+    out (header + quoted datagram + trailer, at most 65535 bytes), `write_serialization` succeeds, leaves the quoted
+    datagram untouched, and the RFC 1071 sum over the whole message it leaves in the region is 0xffff. -/
+theorem wire_icmp_checksum_verifies (cx : Ctx) (p : Icmp4) (hi : p.Inv) (hs : p.Ser) (region : Bytes)
+    (hreg : region.length = p.hdr + cx.innerSize + p.trl cx.innerSize) (h16 : region.length ≤ 65535) :
+    ∃ out, p.write cx region = .ok out ∧ out.length = region.length ∧
+      window out p.hdr cx.innerSize = window region p.hdr cx.innerSize ∧ Ck.Spec.verifies out = true :=
+  Tins.Wire.Derived.wire_icmp_checksum_verifies cx p hi hs region hreg h16
+
+/-- **ICMP RFC 4884 length field.**  For the types RFC 4884 extends (3, 11, 12), when the length field is in use (the
+    stored length is non-zero, or the quoted datagram rounded up to 32-bit words exceeds 128 octets), the length octet
+    (offset 5) is the code's `covered / 4`; and outside known finding KF-C05-1 — i.e. with an extension structure, or
+    with a quoted datagram that is a multiple of 4 octets — times 4 it is exactly the number of octets between the header
+    and the extension structure (the end of the message when there is none), whenever that fits the 8-bit field. -/
+theorem wire_icmp_rfc4884_length (cx : Ctx) (p : Icmp4) (hi : p.Inv) (hs : p.Ser) (region : Bytes)
+    (hreg : region.length = p.hdr + cx.innerSize + p.trl cx.innerSize) (h16 : region.length ≤ 65535)
+    (ht : Icmp4.extAllowed p.type = true)
+    (huse : p.length ≠ 0 ∨ paddedInner (Icmp4.innerOf cx.innerSize) 4 > 128) :
+    ∃ out, p.write cx region = .ok out ∧
+      Icmp.byteAt out 5 = covered p.hasExt cx.innerSize 4 / 4 % 256 ∧
+      ((p.hasExt = true ∨ cx.innerSize % 4 = 0) → covered p.hasExt cx.innerSize 4 ≤ 1020 →
+        Icmp.byteAt out 5 * 4 = covered p.hasExt cx.innerSize 4 ∧
+        p.hdr + covered p.hasExt cx.innerSize 4 + (if p.hasExt then p.ext.plainSize else 0) = region.length) :=
+  Tins.Wire.Derived.wire_icmp_rfc4884_length cx p hi hs region hreg h16 ht huse
+
+/-- **ICMP extension structure checksum** (RFC 4884 §7).  The bytes `ICMPExtensionsStructure::serialize` produces — version,
+    checksum, objects — have RFC 1071 sum 0xffff, for every structure below 128 KiB (sums passing 0xffff included); they are
+    the bytes that end up in the region (`exts_write_eq`), and libtins' own `validate_extensions` accepts them
+    (`exts_validate_wireBytes`). -/
+theorem wire_icmp_ext_checksum_verifies (s : ExtS) (hs : s.plainSize < 131072) :
+    Ck.Spec.verifies s.wireBytes = true ∧ (∀ tail, ExtS.validate (s.wireBytes ++ tail) s.plainSize = .ok true) ∧
+    (∀ (region : Bytes) (off bufSize : Nat), off + s.plainSize ≤ region.length → s.plainSize ≤ bufSize →
+      s.write region off bufSize = .ok (region.take off ++ s.wireBytes ++ region.drop (off + s.plainSize))) :=
+  Tins.Wire.Derived.wire_icmp_ext_checksum_verifies s hs
+
+/-- **ICMPv6 checksum, in situ** (RFC 4443 §2.3).  For every object satisfying the class invariant (any options, multicast
+    records, extension structure), directly inside an `IPv6` whose address getters print `s` / `d`, on the region
+    `PDU::serialize` hands out (at most 65535 bytes), `write_serialization` succeeds, leaves the quoted datagram untouched,
+    and the RFC 1071 sum over the RFC 8200 pseudo header (source, destination, 32-bit length, three zero bytes, next
+    header 58) followed by the whole message it leaves in the region is 0xffff. -/
+theorem wire_icmp6_checksum_verifies (cx : Ctx) (p : Icmp6) (hi : p.Inv) (hs : p.Ser) (region s d : Bytes)
+    (hp : ParentIp6 cx s d) (hs16 : s.length = 16) (hd16 : d.length = 16)
+    (hreg : region.length = p.hdr + cx.innerSize + p.trl cx.innerSize) (h16 : region.length ≤ 65535) :
+    ∃ out, p.write cx region = .ok out ∧ out.length = region.length ∧
+      window out p.hdr cx.innerSize = window region p.hdr cx.innerSize ∧
+      Ck.Spec.verifies (Ck.Spec.pseudo6 s d 58 out.length ++ out) = true :=
+  Tins.Wire.Derived.wire_icmp6_checksum_verifies cx p hi hs region s d hp hs16 hd16 hreg h16
+
+/-- **without an IPv6 parent ICMPv6 writes no checksum**: the checksum bytes stay zero -/
+theorem wire_icmp6_no_parent (cx : Ctx) (p : Icmp6) (hi : p.Inv) (hs : p.Ser) (region : Bytes) (hp : NoIp6Parent cx)
+    (hreg : region.length = p.hdr + cx.innerSize + p.trl cx.innerSize) :
+    ∃ out, p.write cx region = .ok out ∧ out[2]? = some 0 ∧ out[3]? = some 0 :=
+  Tins.Wire.Derived.wire_icmp6_no_parent cx p hi hs region hp hreg
+
+/-- **ICMPv6 RFC 4884 length field.**  For the types RFC 4884 extends (1, 3), when the length field is in use, the length
+    octet (offset 4) is the code's `covered / 8`; and outside known finding KF-C05-2 — with an extension structure, or a
+    quoted datagram that is a multiple of 8 octets — times 8 it is exactly the number of octets between the header and the
+    extension structure (the end of the message when there is none), whenever that fits the 8-bit field.  Stated for a
+    context without IPv6 parent or with one: the octet does not depend on the checksum. -/
+theorem wire_icmp6_rfc4884_length (cx : Ctx) (p : Icmp6) (hi : p.Inv) (hs : p.Ser) (region : Bytes)
+    (hreg : region.length = p.hdr + cx.innerSize + p.trl cx.innerSize) (h16 : region.length ≤ 65535)
+    (ht : Icmp6.extAllowed p.type = true)
+    (huse : p.length ≠ 0 ∨ paddedInner (Icmp4.innerOf cx.innerSize) 8 > 128) :
+    ∃ out, p.write cx region = .ok out ∧
+      Icmp.byteAt out 4 = covered p.hasExt cx.innerSize 8 / 8 % 256 ∧
+      ((p.hasExt = true ∨ cx.innerSize % 8 = 0) → covered p.hasExt cx.innerSize 8 ≤ 2040 →
+        Icmp.byteAt out 4 * 8 = covered p.hasExt cx.innerSize 8 ∧
+        p.hdr + covered p.hasExt cx.innerSize 8 + (if p.hasExt then p.ext.plainSize else 0) = region.length) :=
+  Tins.Wire.Derived.wire_icmp6_rfc4884_length cx p hi hs region hreg h16 ht huse
+
+end WireIcmp
+
+section WireIp6
+open Tins Tins.Wire Tins.Wire.Ip6 Tins.Wire.Ip6.Ipv6 Tins.Wire.Derived
+
+/-- **IPv6 payload length.**  On the region `PDU::serialize` hands out, the 16-bit payload-length field (bytes 4..5) in
+    the bytes `write_serialization` leaves there equals the size of the extension headers plus everything inside the IPv6
+    layer — the number of bytes behind the 40-byte fixed header — whenever that fits the field. -/
+theorem wire_ip6_payload_length (cx : Ctx) (p : Ipv6) (h : p.Inv) (region : Bytes)
+    (hreg : region.length = p.hdr + cx.innerSize) (h16 : headersSize p.headers + cx.innerSize < 65536) :
+    ∃ out, p.write cx region = .ok out ∧ out.length = region.length ∧
+      Cursor.beNat ((out.drop 4).take 2) = headersSize p.headers + cx.innerSize ∧ out.length = 40 + (headersSize p.headers + cx.innerSize) :=
+  Tins.Wire.Derived.wire_ip6_payload_length cx p h region hreg h16
+
+/-- **IPv6 extension headers: Hdr Ext Len.**  The bytes `write_serialization` leaves are the 40 fixed bytes, then one block
+    per extension header, then the payload; the block of a header whose length field is not spoofed
+    (`lenField = data.length`, what `add_header` and the parser produce) is `hdrSize` bytes long — next-header octet,
+    length octet, data, zero padding to a multiple of 8 — and its length octet (offset 1) is that size in 8-octet units
+    minus one (RFC 8200 §4), for every data size (including 7 modulo 8) up to the 2048 bytes the octet can express. -/
+theorem wire_ip6_ext_len_octets (cx : Ctx) (p : Ipv6) (h : p.Inv) (region : Bytes) (hr : p.hdr ≤ region.length) :
+    ∃ out fixed, p.write cx region = .ok out ∧ fixed.length = 40 ∧
+      out = fixed ++ (Ipv6.wireHeaders cx p).flatMap (fun x => hdrBytes x.1 x.2) ++ region.drop p.hdr ∧
+      (Ipv6.wireHeaders cx p).map (·.1) = p.headers ∧
+      ∀ x ∈ Ipv6.wireHeaders cx p,
+        (hdrBytes x.1 x.2).length = hdrSize x.1 ∧ hdrSize x.1 % 8 = 0 ∧
+        (hdrBytes x.1 x.2)[1]? = some (UInt8.ofNat (lengthOctet x.1)) ∧
+        (hdrBytes x.1 x.2).drop (2 + x.1.data.length) = List.replicate (paddingSize x.1) 0 ∧
+        (x.1.lenField = x.1.data.length → hdrSize x.1 ≤ 2048 →
+          lengthOctet x.1 < 256 ∧ (lengthOctet x.1 + 1) * 8 = hdrSize x.1) :=
+  Tins.Wire.Derived.wire_ip6_ext_len_octets cx p h region hr
+
+/-- **IPv6 next-header chain.**  In the bytes `write_serialization` leaves, the fixed header's next-header octet (byte 6)
+    followed by the first octets of the extension-header blocks, in order, is exactly: the types of the extension headers
+    in order, then `lastNext` — the fixed header names the first extension header, every extension header names the one
+    behind it, and the last one (the fixed header when there is none) names what follows the IPv6 layer
+    (`wire_ip6_last_next`). -/
+theorem wire_ip6_next_header_chain (cx : Ctx) (p : Ipv6) (h : p.Inv) (region : Bytes) (hr : p.hdr ≤ region.length) :
+    ∃ out fixed nh, p.write cx region = .ok out ∧ fixed.length = 40 ∧
+      out = fixed ++ (Ipv6.wireHeaders cx p).flatMap (fun x => hdrBytes x.1 x.2) ++ region.drop p.hdr ∧
+      out[6]? = some (UInt8.ofNat nh) ∧ nh < 256 ∧
+      nh :: (Ipv6.wireHeaders cx p).map (·.2) = p.headers.map (·.option) ++ [lastNext cx p] ∧
+      (Ipv6.wireHeaders cx p).map (·.1) = p.headers ∧
+      ∀ x ∈ Ipv6.wireHeaders cx p, (hdrBytes x.1 x.2)[0]? = some (UInt8.ofNat x.2) :=
+  Tins.Wire.Derived.wire_ip6_next_header_chain cx p h region hr
+
+/-- what the last next-header octet names: the protocol number libtins assigns to the inner layer's class when it knows
+    one — a number the IPv6 parser dispatches on and does not mistake for an extension header; the stored `next_header_`
+    when the class has none (RawPDU); No Next Header (59) when nothing follows -/
+theorem wire_ip6_last_next (cx : Ctx) (p : Ipv6) :
+    (∀ cls, cx.innerCls = some cls → Tags.ipProtoOfPduType (Tags.pduTypeOf cls) ≠ 255 →
+      lastNext cx p = Tags.ipProtoOfPduType (Tags.pduTypeOf cls) ∧
+      (Tags.classOfIpProto (lastNext cx p)).isSome = true ∧
+      (isExtensionHeader (lastNext cx p) && lastNext cx p != NO_NEXT_HEADER) = false) ∧
+    (∀ cls, cx.innerCls = some cls → Tags.ipProtoOfPduType (Tags.pduTypeOf cls) = 255 → lastNext cx p = p.finalNext) ∧
+    (cx.innerCls = none → lastNext cx p = 59) :=
+  Tins.Wire.Derived.wire_ip6_last_next cx p
+
+end WireIp6
+
+section WireL2
+open Tins Tins.Wire Tins.Wire.L2 Tins.Wire.Derived
+
+/-- **Ethernet minimum frame.**  On the region `PDU::serialize` hands out, what `EthernetII::write_serialization` leaves
+    is: the 14-byte header, the inner layers' bytes untouched, then `46 - inner size` **zero** bytes — so the frame has
+    exactly `max 60 (14 + inner size)` bytes: padded to 60, never beyond. -/
+theorem wire_eth_min_60 (cx : Ctx) (e : Eth) (h : e.WF) (region : Bytes)
+    (hl : region.length = 14 + cx.innerSize + Eth.trl cx.innerSize) :
+    ∃ out, e.write cx region = .ok out ∧ out.length = max 60 (14 + cx.innerSize) ∧
+      (out.drop 14).take cx.innerSize = (region.drop 14).take cx.innerSize ∧
+      out.drop (14 + cx.innerSize) = List.replicate (46 - cx.innerSize) 0 :=
+  Tins.Wire.Derived.wire_eth_min_60 cx e h region hl
+
+/-- **Ethernet type names the follower.**  Bytes 12..13 of what `write_serialization` leaves are `Eth.tagFor`: 0 without
+    inner PDU; when libtins has an EtherType for the inner layer (`ethFlag`: the class's table entry; PPPoE by stage —
+    0x8864 session / 0x8863 discovery; 0x88a8 for an 802.1Q directly followed by another 802.1Q) that EtherType — and it is
+    one the parsers dispatch on; otherwise the stored `payload_type` is kept. -/
+theorem wire_eth_tag (cx : Ctx) (e : Eth) (h : e.WF) (region : Bytes)
+    (hl : region.length = 14 + cx.innerSize + Eth.trl cx.innerSize) :
+    ∃ out, e.write cx region = .ok out ∧ Cursor.beNat ((out.drop 12).take 2) = Eth.tagFor cx e ∧
+      (cx.inners = [] → Eth.tagFor cx e = 0) ∧
+      (∀ i rest, cx.inners = i :: rest →
+        (ethFlag i rest ≠ 0 → Eth.tagFor cx e = ethFlag i rest ∧ (Tags.classOfEther (Eth.tagFor cx e)).isSome = true) ∧
+        (ethFlag i rest = 0 → Eth.tagFor cx e = e.ptype) ∧
+        (Tags.pduTypeOf i.cls ≠ "PPPOE" → Tags.pduTypeOf i.cls ≠ "DOT1Q" →
+          ethFlag i rest = Tags.etherOfPduType (Tags.pduTypeOf i.cls))) :=
+  Tins.Wire.Derived.wire_eth_tag cx e h region hl
+
+/-- **802.1Q padding.**  With `append_padding` set, `header + inner` is zero-padded to 50 bytes (so that the enclosing
+    Ethernet frame reaches 64 with its 14-byte header); without it nothing is appended. -/
+theorem wire_dot1q_pad_50 (cx : Ctx) (q : Dot1Q) (region : Bytes)
+    (hl : region.length = 4 + cx.innerSize + q.trl cx.innerSize) :
+    ∃ out, q.write cx region = .ok out ∧
+      out.length = (if q.appendPadding then max 50 (4 + cx.innerSize) else 4 + cx.innerSize) ∧
+      (out.drop 4).take cx.innerSize = (region.drop 4).take cx.innerSize ∧
+      out.drop (4 + cx.innerSize) = List.replicate (if q.appendPadding then 50 - (4 + cx.innerSize) else 0) 0 :=
+  Tins.Wire.Derived.wire_dot1q_pad_50 cx q region hl
+
+/-- **802.1Q type names the follower.**  Bytes 2..3 are `Dot1Q.tagFor`: 0 without inner PDU; the EtherType libtins has
+    for the inner layer (the class's table entry, PPPoE by stage) when it has one — a type the parsers dispatch on —,
+    else the stored `payload_type`. -/
+theorem wire_dot1q_tag (cx : Ctx) (q : Dot1Q) (h : q.WF) (region : Bytes)
+    (hl : region.length = 4 + cx.innerSize + q.trl cx.innerSize) :
+    ∃ out, q.write cx region = .ok out ∧ Cursor.beNat ((out.drop 2).take 2) = Dot1Q.tagFor cx q ∧
+      (cx.inners.head? = none → Dot1Q.tagFor cx q = 0) ∧
+      (∀ i, cx.inners.head? = some i →
+        (etherTagOf i ≠ 0 → Dot1Q.tagFor cx q = etherTagOf i ∧ (Tags.classOfEther (Dot1Q.tagFor cx q)).isSome = true) ∧
+        (etherTagOf i = 0 → Dot1Q.tagFor cx q = q.ptype) ∧
+        (Tags.pduTypeOf i.cls ≠ "PPPOE" → etherTagOf i = Tags.etherOfPduType (Tags.pduTypeOf i.cls))) :=
+  Tins.Wire.Derived.wire_dot1q_tag cx q h region hl
+
+/-- **SNAP eth_type names the follower** (bytes 6..7): as for 802.1Q, except that without inner PDU the stored value stays. -/
+theorem wire_snap_tag (cx : Ctx) (s : Snap) (h : s.WF) (region : Bytes) (hr : 8 ≤ region.length) :
+    ∃ out, s.write cx region = .ok out ∧ Cursor.beNat ((out.drop 6).take 2) = Snap.tagFor cx s ∧
+      out.drop 8 = region.drop 8 ∧
+      (∀ i, cx.inners.head? = some i →
+        (etherTagOf i ≠ 0 → Snap.tagFor cx s = etherTagOf i ∧ (Tags.classOfEther (Snap.tagFor cx s)).isSome = true) ∧
+        (etherTagOf i = 0 → Snap.tagFor cx s = s.ethType) ∧
+        (Tags.pduTypeOf i.cls ≠ "PPPOE" → etherTagOf i = Tags.etherOfPduType (Tags.pduTypeOf i.cls))) ∧
+      (cx.inners.head? = none → Snap.tagFor cx s = s.ethType) :=
+  Tins.Wire.Derived.wire_snap_tag cx s h region hr
+
+/-- **SLL protocol names the follower** (bytes 14..15). -/
+theorem wire_sll_tag (cx : Ctx) (s : Sll) (h : s.WF) (region : Bytes) (hr : 16 ≤ region.length) :
+    ∃ out, s.write cx region = .ok out ∧ Cursor.beNat ((out.drop 14).take 2) = Sll.tagFor cx s ∧
+      out.drop 16 = region.drop 16 ∧
+      (∀ i, cx.inners.head? = some i →
+        (etherTagOf i ≠ 0 → Sll.tagFor cx s = etherTagOf i ∧ (Tags.classOfEther (Sll.tagFor cx s)).isSome = true) ∧
+        (etherTagOf i = 0 → Sll.tagFor cx s = s.protocol) ∧
+        (Tags.pduTypeOf i.cls ≠ "PPPOE" → etherTagOf i = Tags.etherOfPduType (Tags.pduTypeOf i.cls))) ∧
+      (cx.inners.head? = none → Sll.tagFor cx s = s.protocol) :=
+  Tins.Wire.Derived.wire_sll_tag cx s h region hr
+
+/-- **Loopback family names the follower.**  The 4-byte host-order family word is PF_INET (2) in front of IP, PF_INET6 (10)
+    in front of IPv6, PF_LLC (26) in front of LLC — the values `Loopback`'s parser dispatches on to exactly these classes —
+    and the stored family otherwise. -/
+theorem wire_loopback_family (cx : Ctx) (l : Loopback) (h : l.WF) (region : Bytes) (hr : 4 ≤ region.length) :
+    ∃ out, l.write cx region = .ok out ∧ Cursor.leNat (out.take 4) = Loopback.familyFor cx l ∧
+      out.drop 4 = region.drop 4 ∧
+      (cx.innerCls = some "IP" → Loopback.familyFor cx l = 2) ∧
+      (cx.innerCls = some "IPv6" → Loopback.familyFor cx l = 10) ∧
+      (cx.innerCls = some "LLC" → Loopback.familyFor cx l = 26) ∧
+      (cx.innerCls ≠ some "IP" → cx.innerCls ≠ some "IPv6" → cx.innerCls ≠ some "LLC" →
+        Loopback.familyFor cx l = l.family) ∧
+      (∀ rest, Loopback.innerFor 2 rest = .cls "IP" rest false ∧ Loopback.innerFor 10 rest = .cls "IPv6" rest false ∧
+        Loopback.innerFor 26 rest = .cls "LLC" rest false) :=
+  Tins.Wire.Derived.wire_loopback_family cx l h region hr
+
+/-- **MPLS bottom-of-stack marker.**  Inside a packet (there is a parent layer), the bottom-of-stack bit (bit 0 of
+    byte 2) of what `write_serialization` leaves is 1 exactly on the last label of the stack — the one not followed by
+    another MPLS —, label, traffic class and TTL being kept; a top-level MPLS keeps its stored bit. -/
+theorem wire_mpls_marker (cx : Ctx) (m : Mpls) (h : m.WF) (region : Bytes) (hr : 4 ≤ region.length) :
+    ∃ out, m.write cx region = .ok out ∧ out.drop 4 = region.drop 4 ∧
+      out.take 4 = (Mpls.written cx m).headerBytes ∧
+      (cx.parents ≠ [] → cx.innerCls ≠ some "MPLS" → (Mpls.written cx m).bottomOfStack = 1) ∧
+      (cx.parents ≠ [] → cx.innerCls = some "MPLS" → (Mpls.written cx m).bottomOfStack = m.bottomOfStack) ∧
+      (cx.parents = [] → Mpls.written cx m = m) ∧
+      (Mpls.written cx m).view = m.view :=
+  Tins.Wire.Derived.wire_mpls_marker cx m h region hr
+
+/-- **PPPoE payload length.**  With tags or an inner PDU, bytes 4..5 of what `write_serialization` leaves count everything
+    behind the 6-byte header of its region — tags and session payload (after fix KF-C05-4) —, when that fits 16 bits. -/
+theorem wire_pppoe_payload_length (cx : Ctx) (p : PPPoE) (h : p.Inv) (region : Bytes)
+    (hreg : region.length = p.hdr + cx.innerSize) (h16 : region.length - 6 < 65536)
+    (hne : p.tagsSize > 0 ∨ cx.inners ≠ []) :
+    ∃ out, p.write cx region = .ok out ∧ out.length = region.length ∧
+      Cursor.beNat ((out.drop 4).take 2) = out.length - 6 :=
+  Tins.Wire.Derived.wire_pppoe_payload_length cx p h region hreg h16 hne
+
+end WireL2
+
+section WirePacket
+open Tins Tins.Wire Tins.Wire.Derived
+
+/-- **The slice of the packet that belongs to layer `n` is what layer `n`'s writer produced.**  For every stack whose
+    layers satisfy their class invariants and serializability predicates (every parsed packet without PPI/PKTAP:
+    `parsed_layers_good`; every API-built stack: `<fam>_mk_inv` / `<fam>_apply_inv`), `serialize()` succeeds, and for every
+    layer `o` at position `n` there is a region of exactly `header + inner chain + trailer` bytes — the one
+    `PDU::serialize` handed it, the inner layers already written — such that `o`'s `write_serialization`, run in the context
+    `ctxAt os n`, returned exactly the bytes found in the final packet at the layer's offset.  No layer above changes them. -/
+theorem layer_in_packet (os : List AnyObj) (h : ∀ o ∈ os, registryPreds.Inv o ∧ registryPreds.Ser o)
+    (n : Nat) (o : AnyObj) (hn : os[n]? = some o) :
+    ∃ out region, serializeObjs os = .ok out ∧
+      region.length = o.hdr + (ctxAt os n).innerSize + o.trl (ctxAt os n).innerSize ∧
+      o.write (ctxAt os n) region =
+        .ok ((out.drop (layerOffset os n)).take (o.hdr + (ctxAt os n).innerSize + o.trl (ctxAt os n).innerSize)) :=
+  Tins.Wire.Derived.layer_in_packet os h n o hn
+
+end WirePacket
+
+section WireStacks
+open Tins Tins.Wire Tins.Wire.Derived
+
+/-- **IPv4 header inside a packet.**  For an `IP` at any position `n` of any stack satisfying the invariants, whose datagram
+    (header + everything inside) fits the 16-bit total length: in the final packet bytes, the datagram `dg` at the IP
+    layer's offset has its header checksum verifying, its total-length field equal to the number of bytes from the first
+    header byte to the end of the IP payload, and IHL·4 equal to the offset at which the payload starts. -/
+theorem packet_ip4 (os : List AnyObj) (h : ∀ o ∈ os, registryPreds.Inv o ∧ registryPreds.Ser o)
+    (n : Nat) (ip : Ip.Ip4) (h1 : os[n]? = some (.ip (.ip ip))) (h16 : ip.hdr + (ctxAt os n).innerSize < 65536) :
+    ∃ out, serializeObjs os = .ok out ∧
+      (layerBytes os n (.ip (.ip ip)) out).length = ip.hdr + (ctxAt os n).innerSize ∧
+      Ck.Spec.verifies ((layerBytes os n (.ip (.ip ip)) out).take ip.hdr) = true ∧
+      Cursor.beNat (((layerBytes os n (.ip (.ip ip)) out).drop 2).take 2) = (layerBytes os n (.ip (.ip ip)) out).length ∧
+      Ip.byteAt (layerBytes os n (.ip (.ip ip)) out) 0 % 16 * 4 = ip.hdr ∧
+      Ip.byteAt (layerBytes os n (.ip (.ip ip)) out) 9 = Ip.Ip4.protocolFor (ctxAt os n) ip ∧
+      ((layerBytes os n (.ip (.ip ip)) out).drop 12).take 8 = ip.src ++ ip.dst :=
+  Tins.Wire.Derived.packet_ip4 os h n ip h1 h16
+
+/-- **IPv6 fixed header inside a packet**: the payload-length field equals the number of bytes behind the 40-byte fixed
+    header up to the end of the IPv6 payload. -/
+theorem packet_ip6 (os : List AnyObj) (h : ∀ o ∈ os, registryPreds.Inv o ∧ registryPreds.Ser o)
+    (n : Nat) (p : Ip6.Ipv6) (h1 : os[n]? = some (.ip6 (.ip6 p)))
+    (h16 : Ip6.Ipv6.headersSize p.headers + (ctxAt os n).innerSize < 65536) :
+    ∃ out, serializeObjs os = .ok out ∧
+      (layerBytes os n (.ip6 (.ip6 p)) out).length = 40 + (Ip6.Ipv6.headersSize p.headers + (ctxAt os n).innerSize) ∧
+      Cursor.beNat (((layerBytes os n (.ip6 (.ip6 p)) out).drop 4).take 2) + 40 = (layerBytes os n (.ip6 (.ip6 p)) out).length ∧
+      ((layerBytes os n (.ip6 (.ip6 p)) out).drop 8).take 32 = p.src ++ p.dst :=
+  Tins.Wire.Derived.packet_ip6 os h n p h1 h16
+
+/-- **… / IP / UDP / … inside a packet.**  In the serialization of any stack satisfying the invariants in which an `IP`
+    (any options) is directly followed by a `UDP` (anything above, any payload below), with the IP datagram within 65535
+    bytes: in the final packet bytes, at the IP layer's offset, the IP header checksum verifies, the total length equals the
+    number of bytes from the IP header to the end of the IP payload, the protocol octet is 17, and the UDP checksum
+    verifies over the RFC 768 pseudo header — built from the very source and destination address bytes of that IP
+    header — followed by the UDP datagram; the UDP length field is the datagram's length. -/
+theorem packet_ip_udp (os : List AnyObj) (h : ∀ o ∈ os, registryPreds.Inv o ∧ registryPreds.Ser o)
+    (n : Nat) (ip : Ip.Ip4) (u : Transport.Udp) (h1 : os[n]? = some (.ip (.ip ip))) (h2 : os[n + 1]? = some (.tr (.udp u)))
+    (h16 : ip.hdr + (ctxAt os n).innerSize < 65536) :
+    ∃ out dg seg, serializeObjs os = .ok out ∧
+      dg = (out.drop (layerOffset os n)).take (ip.hdr + (ctxAt os n).innerSize) ∧ seg = dg.drop ip.hdr ∧
+      dg.length = ip.hdr + (ctxAt os n).innerSize ∧
+      Ck.Spec.verifies (dg.take ip.hdr) = true ∧
+      Cursor.beNat ((dg.drop 2).take 2) = dg.length ∧
+      Ip.byteAt dg 0 % 16 * 4 = ip.hdr ∧ Ip.byteAt dg 9 = 17 ∧
+      (dg.drop 12).take 8 = ip.src ++ ip.dst ∧
+      Ck.Spec.verifies (Ck.Spec.pseudo4 ip.src ip.dst 17 seg.length ++ seg) = true ∧
+      Cursor.beNat ((seg.drop 4).take 2) = seg.length ∧
+      ¬ (seg[6]? = some 0 ∧ seg[7]? = some 0) :=
+  Tins.Wire.Derived.packet_ip_udp os h n ip u h1 h2 h16
+
+/-- **… / IP / TCP / … inside a packet.**  As `packet_ip_udp`, for a `TCP` with any option list that fits the option area:
+    IP header checksum, total length, IHL, protocol 6, and the TCP checksum over the RFC 793 pseudo header built from the
+    address bytes of that IP header followed by the whole segment (header, options, padding, payload); data offset · 4 is
+    the TCP header size. -/
+theorem packet_ip_tcp (os : List AnyObj) (h : ∀ o ∈ os, registryPreds.Inv o ∧ registryPreds.Ser o)
+    (n : Nat) (ip : Ip.Ip4) (t : Transport.Tcp) (h1 : os[n]? = some (.ip (.ip ip))) (h2 : os[n + 1]? = some (.tr (.tcp t)))
+    (h16 : ip.hdr + (ctxAt os n).innerSize < 65536) :
+    ∃ out dg seg, serializeObjs os = .ok out ∧
+      dg = layerBytes os n (.ip (.ip ip)) out ∧ seg = dg.drop ip.hdr ∧
+      dg.length = ip.hdr + (ctxAt os n).innerSize ∧
+      Ck.Spec.verifies (dg.take ip.hdr) = true ∧
+      Cursor.beNat ((dg.drop 2).take 2) = dg.length ∧
+      Ip.byteAt dg 0 % 16 * 4 = ip.hdr ∧ Ip.byteAt dg 9 = 6 ∧
+      (dg.drop 12).take 8 = ip.src ++ ip.dst ∧
+      Ck.Spec.verifies (Ck.Spec.pseudo4 ip.src ip.dst 6 seg.length ++ seg) = true ∧
+      Transport.byteAt seg 12 / 16 * 4 = t.hdr :=
+  Tins.Wire.Derived.packet_ip_tcp os h n ip t h1 h2 h16
+
+/-- **… / IP / ICMP / … inside a packet.**  IP header checksum, total length, protocol 1, and the ICMP checksum over the
+    whole ICMP message (header, quoted datagram, RFC 4884 padding and extension structure). -/
+theorem packet_ip_icmp (os : List AnyObj) (h : ∀ o ∈ os, registryPreds.Inv o ∧ registryPreds.Ser o)
+    (n : Nat) (ip : Ip.Ip4) (p : Icmp.Icmp4) (h1 : os[n]? = some (.ip (.ip ip))) (h2 : os[n + 1]? = some (.icmp (.icmp p)))
+    (h16 : ip.hdr + (ctxAt os n).innerSize < 65536) :
+    ∃ out dg msg, serializeObjs os = .ok out ∧
+      dg = layerBytes os n (.ip (.ip ip)) out ∧ msg = dg.drop ip.hdr ∧
+      dg.length = ip.hdr + (ctxAt os n).innerSize ∧
+      Ck.Spec.verifies (dg.take ip.hdr) = true ∧
+      Cursor.beNat ((dg.drop 2).take 2) = dg.length ∧ Ip.byteAt dg 9 = 1 ∧
+      Ck.Spec.verifies msg = true :=
+  Tins.Wire.Derived.packet_ip_icmp os h n ip p h1 h2 h16
+
+/-- **… / IPv6 / UDP / … inside a packet** (any extension headers inside the IPv6 layer): the payload length counts the
+    bytes behind the 40-byte fixed header, and the UDP checksum verifies over the RFC 8200 pseudo header built from the
+    address bytes of that IPv6 header, followed by the datagram; a computed 0 is sent as 0xffff. -/
+theorem packet_ip6_udp (os : List AnyObj) (h : ∀ o ∈ os, registryPreds.Inv o ∧ registryPreds.Ser o)
+    (n : Nat) (p : Ip6.Ipv6) (u : Transport.Udp) (h1 : os[n]? = some (.ip6 (.ip6 p))) (h2 : os[n + 1]? = some (.tr (.udp u)))
+    (h16 : Ip6.Ipv6.headersSize p.headers + (ctxAt os n).innerSize < 65536) :
+    ∃ out dg seg, serializeObjs os = .ok out ∧
+      dg = layerBytes os n (.ip6 (.ip6 p)) out ∧ seg = dg.drop p.hdr ∧
+      Cursor.beNat ((dg.drop 4).take 2) + 40 = dg.length ∧
+      (dg.drop 8).take 32 = p.src ++ p.dst ∧
+      Ck.Spec.verifies (Ck.Spec.pseudo6 p.src p.dst 17 seg.length ++ seg) = true ∧
+      Cursor.beNat ((seg.drop 4).take 2) = seg.length ∧
+      ¬ (seg[6]? = some 0 ∧ seg[7]? = some 0) :=
+  Tins.Wire.Derived.packet_ip6_udp os h n p u h1 h2 h16
+
+/-- **… / IPv6 / TCP / … inside a packet.** -/
+theorem packet_ip6_tcp (os : List AnyObj) (h : ∀ o ∈ os, registryPreds.Inv o ∧ registryPreds.Ser o)
+    (n : Nat) (p : Ip6.Ipv6) (t : Transport.Tcp) (h1 : os[n]? = some (.ip6 (.ip6 p))) (h2 : os[n + 1]? = some (.tr (.tcp t)))
+    (h16 : Ip6.Ipv6.headersSize p.headers + (ctxAt os n).innerSize < 65536) :
+    ∃ out dg seg, serializeObjs os = .ok out ∧
+      dg = layerBytes os n (.ip6 (.ip6 p)) out ∧ seg = dg.drop p.hdr ∧
+      Cursor.beNat ((dg.drop 4).take 2) + 40 = dg.length ∧
+      (dg.drop 8).take 32 = p.src ++ p.dst ∧
+      Ck.Spec.verifies (Ck.Spec.pseudo6 p.src p.dst 6 seg.length ++ seg) = true ∧
+      Transport.byteAt seg 12 / 16 * 4 = t.hdr :=
+  Tins.Wire.Derived.packet_ip6_tcp os h n p t h1 h2 h16
+
+/-- **… / IPv6 (+ extension headers) / ICMPv6 / … inside a packet**: the ICMPv6 checksum verifies over the RFC 8200 pseudo
+    header (next header 58 — the upper-layer protocol, not the first extension header) built from the address bytes of
+    that IPv6 header, followed by the whole ICMPv6 message. -/
+theorem packet_ip6_icmp6 (os : List AnyObj) (h : ∀ o ∈ os, registryPreds.Inv o ∧ registryPreds.Ser o)
+    (n : Nat) (p : Ip6.Ipv6) (q : Icmp.Icmp6) (h1 : os[n]? = some (.ip6 (.ip6 p))) (h2 : os[n + 1]? = some (.icmp (.icmp6 q)))
+    (h16 : Ip6.Ipv6.headersSize p.headers + (ctxAt os n).innerSize < 65536) :
+    ∃ out dg msg, serializeObjs os = .ok out ∧
+      dg = layerBytes os n (.ip6 (.ip6 p)) out ∧ msg = dg.drop p.hdr ∧
+      Cursor.beNat ((dg.drop 4).take 2) + 40 = dg.length ∧
+      (dg.drop 8).take 32 = p.src ++ p.dst ∧
+      Ck.Spec.verifies (Ck.Spec.pseudo6 p.src p.dst 58 msg.length ++ msg) = true :=
+  Tins.Wire.Derived.packet_ip6_icmp6 os h n p q h1 h2 h16
+
+/-- **EthernetII at the bottom of the stack** (position 0): the serialized packet is at least 60 bytes — exactly
+    `max 60 (14 + size of the inner chain)` — everything behind the inner chain is zero padding, and bytes 12..13 are the
+    EtherType libtins assigns to the class of layer 1. -/
+theorem packet_eth (os : List AnyObj) (h : ∀ o ∈ os, registryPreds.Inv o ∧ registryPreds.Ser o)
+    (e : L2.Eth) (rest : List AnyObj) (hos : os = .l2 (.eth e) :: rest) :
+    ∃ out, serializeObjs os = .ok out ∧ out.length = max 60 (14 + (ctxAt os 0).innerSize) ∧
+      out.drop (14 + (ctxAt os 0).innerSize) = List.replicate (46 - (ctxAt os 0).innerSize) 0 ∧
+      Cursor.beNat ((out.drop 12).take 2) = L2.Eth.tagFor (ctxAt os 0) e :=
+  Tins.Wire.Derived.packet_eth os h e rest hos
+
+end WireStacks
 
 end Tins.Props.C05
